@@ -5,10 +5,13 @@ package main
 // syscall issued between two marker calls around Copy.
 //
 // input : as kind 1404
-// output: (output-of-1404 ((call nofollow path) ...))   call = "chown" | "chmod" | "utimes" | "setxattr"
+// output: (output-of-1404 ((call nofollow path [onlink]) ...))   call = "chown" | "chmod" | "utimes" | "setxattr"
 //         nofollow = 1: lchown, lsetxattr, fchownat / fchmodat / utimensat with AT_SYMLINK_NOFOLLOW
+//         onlink (chmod only) = 1 when the path names a symlink at the time of the call: the latest
+//         creating call for that path inside the window was symlink(at); without one, the path is a
+//         symlink in the before-snapshot
 // The specification (Glue run_1405, theorem metadata_calls_nofollow): chown, utimes and setxattr calls
-// are no-follow; a following chmod names something that is not a symlink (after-snapshot).
+// are no-follow; a following chmod names something that is not a symlink.
 
 import (
 	"bufio"
@@ -74,7 +77,8 @@ func c14Trace(in Sx) Sx {
 	tf.Close()
 	defer os.Remove(tf.Name())
 	cmd := exec.Command("strace", "-f", "-qq", "-xx", "-s", "4096", "-o", tf.Name(),
-		"-e", "trace=chown,lchown,fchownat,chmod,fchmodat,utimensat,utimes,futimesat,utime,setxattr,lsetxattr,access,faccessat,faccessat2",
+		"-e", "trace=chown,lchown,fchownat,chmod,fchmodat,utimensat,utimes,futimesat,utime,setxattr,lsetxattr,access,faccessat,faccessat2,"+
+			"symlink,symlinkat,mkdir,mkdirat,mknod,mknodat,link,linkat,open,openat,creat",
 		exe, "run", "1404", in.String())
 	outb, err := cmd.Output()
 	if err != nil {
@@ -95,6 +99,15 @@ func c14Trace(in Sx) Sx {
 	defer f.Close()
 	var evs []Sx
 	inside := map[string]bool{}
+	// is the path a symlink now?  before-snapshot, then the creating calls seen
+	isLink := map[string]bool{}
+	if len(out1404.L) >= 2 {
+		for _, e := range out1404.L[1].L {
+			if len(e.L) == 3 && len(e.L[2].L) > 0 && e.L[2].L[0].U64()&0xf000 == 0xa000 {
+				isLink["/"+e.L[0].Str()] = true
+			}
+		}
+	}
 	sc := bufio.NewScanner(f)
 	sc.Buffer(make([]byte, 1<<20), 1<<26)
 	for sc.Scan() {
@@ -121,6 +134,27 @@ func c14Trace(in Sx) Sx {
 		if !inside[pid] {
 			continue
 		}
+		last := c14Unquote(strs[len(strs)-1][1])
+		switch call {
+		case "symlink", "symlinkat":
+			if len(strs) >= 2 {
+				isLink[last] = true
+			}
+			continue
+		case "mkdir", "mkdirat", "mknod", "mknodat", "creat":
+			isLink[path] = false
+			continue
+		case "link", "linkat":
+			if len(strs) >= 2 {
+				isLink[last] = isLink[path] // a hard link to a symlink is a symlink
+			}
+			continue
+		case "open", "openat":
+			if strings.Contains(args, "O_CREAT") {
+				isLink[path] = false
+			}
+			continue
+		}
 		nofollow := strings.Contains(args, "AT_SYMLINK_NOFOLLOW")
 		kind := ""
 		switch call {
@@ -145,7 +179,11 @@ func c14Trace(in Sx) Sx {
 		default:
 			continue
 		}
-		evs = append(evs, L(S(kind), Bool(nofollow), S(path)))
+		if kind == "chmod" {
+			evs = append(evs, L(S(kind), Bool(nofollow), S(path), Bool(isLink[path])))
+		} else {
+			evs = append(evs, L(S(kind), Bool(nofollow), S(path)))
+		}
 	}
 	return L(out1404, L(evs...))
 }
